@@ -113,10 +113,11 @@ func ReplayC20(ctx context.Context, path string) (string, error) {
 	}
 	var file struct {
 		Replay struct {
-			Resource string  `json:"resource"`
-			History  History `json:"history"`
-			Variant  variant `json:"variant"`
-			Filter   any     `json:"filter"`
+			Resource string            `json:"resource"`
+			History  History           `json:"history"`
+			Features map[string]string `json:"features"` // absent: the default feature set
+			Variant  variant           `json:"variant"`
+			Filter   any               `json:"filter"`
 		} `json:"replay"`
 	}
 	dec := json.NewDecoder(strings.NewReader(string(raw)))
@@ -133,26 +134,28 @@ func ReplayC20(ctx context.Context, path string) (string, error) {
 	if err != nil {
 		return "", err
 	}
-	boot, err := lx.Boot(ctx, []lx.LedgerSpec{{Name: ledgerName}})
+	var cfg *FeatCfg
+	if rp.Features != nil {
+		cfg = &FeatCfg{Name: "replayed", Features: rp.Features}
+	}
+	bs, err := buildCfg(ctx, []*History{&rp.History}, cfg)
 	if err != nil {
 		return "", err
 	}
-	b, err := buildOne(ctx, boot, &rp.History)
-	if err != nil {
-		return "", err
-	}
+	b := bs[0]
 	s, err := b.open(ctx)
 	if err != nil {
 		return "", err
 	}
 	defer s.close()
+	v := b.under(rp.Variant)
 	fmt.Fprintln(os.Stderr, "=== REPLAY QUERY ===") // with PGSIM_TRACE=1 the query's SQL follows this line
-	vd := evaluate(ctx, s, res, rp.Variant, res.rows(b.Ref, rp.Variant), f)
+	vd := evaluate(ctx, s, res, v, res.rows(b.Ref, v), f)
 	verdict := "OK (implementation agrees with the reference)"
 	if vd.bad() {
 		verdict = "MISMATCH kind=" + vd.Kind + ": " + vd.Detail
 	}
-	return fmt.Sprintf("%s filter=%s variant=%s\n  expected: %v\n  listed:   %v\n  %s", res.Name, f.JSON(), rp.Variant.Name, vd.Want, vd.Got, verdict), nil
+	return fmt.Sprintf("%s features=%v filter=%s variant=%s\n  expected: %v\n  listed:   %v\n  %s", res.Name, rp.Features, f.JSON(), v.Name, vd.Want, vd.Got, verdict), nil
 }
 
 // Replay dispatches on the "property" field of a replay file.
